@@ -14,6 +14,7 @@ import (
 	dragonboat "github.com/lni/dragonboat/v4"
 	"github.com/lni/dragonboat/v4/client"
 	"github.com/lni/dragonboat/v4/config"
+	"github.com/lni/dragonboat/v4/internal/rsm"
 	pb "github.com/lni/dragonboat/v4/raftpb"
 )
 
@@ -60,6 +61,9 @@ type Plan struct {
 	PadBytes      int  // commands carry this many extra (compressible) bytes
 	// Witness: host Hosts-1 joins as a witness (votes, stores metadata only, has no state machine)
 	Witness bool
+	// AuxPct: percentage of client operations that are auxiliary requests (QueryRaftLog,
+	// RequestCompaction) instead of reads and writes
+	AuxPct int
 }
 
 // special reports whether host index i runs the non-voting member or the witness
@@ -143,7 +147,17 @@ type Op struct {
 	CommitNotified bool
 }
 
+// LogQueryObs is one completed QueryRaftLog: the committed entries the replica
+// on Host returned for [First, Last).
+type LogQueryObs struct {
+	Host        int
+	First, Last uint64
+	Indexes     []uint64
+	Cmds        []string // logical command of each returned entry ("" = not a user proposal)
+}
+
 type Result struct {
+	LogQueries []LogQueryObs
 	Plan       Plan
 	Ops        []*Op
 	Rec        *Recorder
@@ -442,6 +456,7 @@ func RunPlan(p Plan) *Result {
 	}
 	var hostMu sync.RWMutex // protects Host.NH/Up against the fault goroutine
 	var valCtr int64
+	var maxIndex uint64 // highest log index a completed proposal reported
 	stopClients := make(chan struct{})
 	var wg sync.WaitGroup
 	for ci := 0; ci < p.Clients; ci++ {
@@ -471,6 +486,10 @@ func RunPlan(p Plan) *Result {
 					continue
 				}
 				timeout := time.Duration(100+rnd.intn(300)) * time.Millisecond
+				if p.AuxPct > 0 && rnd.intn(100) < p.AuxPct {
+					res.auxRequest(nh, hi, rnd, atomic.LoadUint64(&maxIndex))
+					continue
+				}
 				if isRead {
 					op := addOp(&Op{Client: ci, Host: hi, Key: key, Call: Now()})
 					if async {
@@ -595,6 +614,12 @@ func RunPlan(p Plan) *Result {
 					}
 					if r.Completed() {
 						op.Index = r.GetResult().Value
+						for {
+							cur := atomic.LoadUint64(&maxIndex)
+							if op.Index <= cur || atomic.CompareAndSwapUint64(&maxIndex, cur, op.Index) {
+								break
+							}
+						}
 						if string(r.GetResult().Data) != "R:"+string(cmd) {
 							res.violate("completed-with-foreign-result", "proposal %q completed with result data %q", cmd, r.GetResult().Data)
 						}
@@ -608,6 +633,12 @@ func RunPlan(p Plan) *Result {
 					op.Outcome, op.Ret = classifyErr(err), Now()
 					if err == nil {
 						op.Index = r.Value
+						for {
+							cur := atomic.LoadUint64(&maxIndex)
+							if op.Index <= cur || atomic.CompareAndSwapUint64(&maxIndex, cur, op.Index) {
+								break
+							}
+						}
 						if string(r.Data) != "R:"+string(cmd) {
 							res.violate("completed-with-foreign-result", "proposal %q completed with result data %q", cmd, r.Data)
 						}
@@ -840,6 +871,72 @@ func RunPlan(p Plan) *Result {
 	res.finalReads(p)
 	res.finalAgreement()
 	return res
+}
+
+// auxRequest issues one auxiliary request of the public API and checks that it gets
+// exactly one terminal result (C12). A completed QueryRaftLog is kept for the
+// truthfulness check in CheckStreams: what it returns are committed entries.
+func (res *Result) auxRequest(nh *dragonboat.NodeHost, hi int, rnd *lcg, hiIndex uint64) {
+	switch rnd.intn(4) {
+	case 0:
+		// (ErrRejected = nothing to reclaim)
+		if st, err := nh.RequestCompaction(shardID, uint64(hi+1)); err == nil {
+			select {
+			case <-st.ResultC():
+				res.flag("aux-compaction-completed")
+			case <-time.After(20 * time.Second):
+				res.violate("no-terminal-result", "RequestCompaction on host %d: the returned SysOpState did not complete within 20 s", hi)
+			}
+		} else {
+			res.flag("aux-compaction-refused")
+		}
+	default:
+		first := uint64(1 + rnd.intn(int(hiIndex)+3))
+		last := first + 1 + uint64(rnd.intn(8))
+		maxSize := uint64(16 + rnd.intn(6000))
+		rs, err := nh.QueryRaftLog(shardID, first, last, maxSize)
+		if err != nil {
+			res.flag("aux-logquery-refused")
+			return
+		}
+		r, code, _ := awaitResultX(rs, 0)
+		switch {
+		case code == awaitNone:
+			res.violate("no-terminal-result", "QueryRaftLog [%d,%d) on host %d delivered no result within 10 s", first, last, hi)
+		case code == awaitExtra:
+			res.violate("two-results", "QueryRaftLog [%d,%d) on host %d delivered a second result", first, last, hi)
+		case r.Completed():
+			ents, lr := r.RaftLogs()
+			obs := LogQueryObs{Host: hi, First: first, Last: last}
+			for i, e := range ents {
+				if e.Index != first+uint64(i) || e.Index >= last {
+					res.violate("logquery-wrong-range", "QueryRaftLog [%d,%d) on host %d returned entry %d at position %d (reported range [%d,%d))", first, last, hi, e.Index, i, lr.FirstIndex, lr.LastIndex)
+					break
+				}
+				cmd := ""
+				if e.Type == pb.ApplicationEntry || e.Type == pb.EncodedEntry {
+					if payload, err := rsm.GetPayload(e); err == nil {
+						parts := strings.SplitN(string(payload), "|", 4)
+						if len(parts) >= 3 && parts[0] == "P" {
+							cmd = strings.Join(parts[:3], "|")
+						}
+					} else {
+						res.violate("logquery-undecodable-entry", "QueryRaftLog on host %d returned entry %d whose payload cannot be decoded: %v", hi, e.Index, err)
+					}
+				}
+				obs.Indexes = append(obs.Indexes, e.Index)
+				obs.Cmds = append(obs.Cmds, cmd)
+			}
+			res.mu.Lock()
+			res.LogQueries = append(res.LogQueries, obs)
+			res.mu.Unlock()
+			res.flag("aux-logquery-completed")
+		case r.RequestOutOfRange():
+			res.flag("aux-logquery-out-of-range")
+		default:
+			res.flag("aux-logquery-" + resultOutcome(r))
+		}
+	}
 }
 
 // finalAgreement: C02. With the network healed and no client traffic every
@@ -1168,6 +1265,25 @@ func (res *Result) CheckStreams() {
 			res.violateLocked("write-applied-twice", "%q applied at index %d and at index %d", cmd, prev, idx)
 		}
 		idxOf[cmd] = idx
+	}
+	// C12/C02: a completed QueryRaftLog returns committed entries: a user proposal it
+	// reports at index i is the command every replica applies at i, and an index at
+	// which a replica applied a user proposal is not reported as something else
+	for _, q := range res.LogQueries {
+		for i, idx := range q.Indexes {
+			applied, ok := byIndex[idx]
+			if !ok {
+				// (nothing was delivered to a state machine at this index: a membership change,
+				// a no-op, session bookkeeping or the filtered duplicate of a retried proposal)
+				continue
+			}
+			if !strings.HasPrefix(applied, "P|") {
+				applied = ""
+			}
+			if applied != q.Cmds[i] {
+				res.violateLocked("logquery-returned-uncommitted-entry", "QueryRaftLog [%d,%d) on host %d returned %q at index %d; the replicas applied %q there", q.First, q.Last, q.Host, q.Cmds[i], idx, applied)
+			}
+		}
 	}
 	// C02/C08: the content of a snapshot is the state at the index the snapshot is
 	// stamped with. The image handed to SaveSnapshot carries the state machine's own
